@@ -94,6 +94,7 @@ class Wasserstein1D(Metric[torch.Tensor]):
             new_weights_dist_2 = new_weights_dist_2.to(self.device)
 
         # When new data comes in, just add them to the list of samples
+        new_samples_dist_1, new_samples_dist_2, new_weights_dist_1, new_weights_dist_2 = new_samples_dist_1.detach(), new_samples_dist_2.detach(), new_weights_dist_1.detach(), new_weights_dist_2.detach()
         self.dist_1_samples.append(new_samples_dist_1)
         self.dist_2_samples.append(new_samples_dist_2)
         self.dist_1_weights.append(new_weights_dist_1)
